@@ -11,6 +11,7 @@
 (*  "round"   every shift 1..38 x head class x remainder class x sign x scale *)
 (*  "operands" every boundary-class operand x every scale 0..18 (unary operations) *)
 (*  "ints"    d * 10^k for every d <= NMax, k <= 37, written with f <= min(k, 18) digits *)
+(*  "forms"   operation x integer type x operand position x Decimal class x integer class (C17: every macro-stamped impl) *)
 EXTENDS BigInt, TLC, Json
 CONSTANTS Kind, NMax, DMax, LMax, ScaleSet
 
@@ -43,6 +44,7 @@ Init ==
        [] Kind = "round" -> a \in 1..38 /\ b = 0
        [] Kind = "operands" -> a \in Signed /\ b = 0
        [] Kind = "ints" -> a \in 1..NMax /\ b = 0
+       [] Kind = "forms" -> a \in 1..15 /\ b = 0
 Next ==
   CASE Kind = "kernel" -> out = "-" /\ \E d \in 1..DMax : out' = ToJson(<<a, d>>) /\ UNCHANGED <<a, b>>
     [] Kind = "small" -> out = "-" /\ \E yc \in YSmall, s \in {-1, 1}, yf \in 0..1, n \in 0..2 :
@@ -56,6 +58,8 @@ Next ==
                            out' = ToJson(<<a, hc, rc, sg, f>>) /\ UNCHANGED <<a, b>>
     [] Kind = "operands" -> out = "-" /\ \E f \in 0..18 : out' = ToJson([s |-> a.s, m |-> a.m, f |-> f]) /\ UNCHANGED <<a, b>>
     [] Kind = "ints" -> out = "-" /\ \E k \in 0..37, f \in 0..18, sg \in {-1, 1} : f <= k /\ out' = ToJson(<<a, k, f, sg>>) /\ UNCHANGED <<a, b>>
+    [] Kind = "forms" -> out = "-" /\ \E ty \in 0..9, pos \in 0..1, xi \in 1..NMax, ii \in 1..DMax :
+                           out' = ToJson(<<a, ty, pos, xi, ii>>) /\ UNCHANGED <<a, b>>
 Spec == Init /\ [][Next]_vars
 Emit == out = "-" \/ PrintT("VEC " \o out)
 =======================================================================
